@@ -185,17 +185,20 @@ impl<E> CQueue<E> {
                 if let Some(i) = self.zero_event_bucket.iter().position(|v| v.2 == handle.id) {
                     self.zero_event_bucket.remove(i);
                     self.len -= 1;
+                    return;
                 }
-            } else {
-                let time_mod = handle.time.as_nanos().rem(self.t_all);
+            }
 
-                let index = time_mod / self.t_nanos;
-                let index: usize = index as usize;
-                let index = index % self.n;
+            // An event with `time == t_current` that was added before the
+            // clock reached `t_current` lives in a regular bucket.
+            let time_mod = handle.time.as_nanos().rem(self.t_all);
 
-                if self.buckets[index].cancel(&handle) {
-                    self.len -= 1;
-                }
+            let index = time_mod / self.t_nanos;
+            let index: usize = index as usize;
+            let index = index % self.n;
+
+            if self.buckets[index].cancel(&handle) {
+                self.len -= 1;
             }
         }
     }
